@@ -126,6 +126,9 @@ func c20Request(ipSpec string) *http.Request {
 // one address; an IPv4-mapped IPv6 address is the IPv4 address it carries).
 func c20IP(ipSpec string) string {
 	ip := strings.TrimPrefix(ipSpec, "xff:")
+	if first, _, isList := strings.Cut(ip, ","); isList {
+		ip = strings.TrimSpace(first) // "client, proxy1, proxy2": every proxy appends the address it got the request from
+	}
 	if p := net.ParseIP(ip); p != nil {
 		return p.String()
 	}
@@ -157,6 +160,8 @@ func TestVerifC20(t *testing.T) {
 		{name: "after-boundary", max: 1, clients: [][]string{{"1.2.3.4"}, {"1.2.3.4"}, {"5.6.7.8"}}, reader: "5.6.7.8", startOff: c20Interval + 1},
 		{name: "mapped-addresses", max: 1, clients: [][]string{{"xff:::ffff:10.2.3.4", "xff:::ffff:10.2.3.4", "xff:::ffff:10.2.3.4"}, {"xff:::ffff:1.2.3.4", "xff:::ffff:1.2.3.4"}, {"xff:10.2.3.4", "1.2.3.4"}}, reader: "xff:::ffff:1.2.3.4"},
 		{name: "two-spellings", max: 1, clients: [][]string{{"xff:2001:db8::1", "xff:2001:DB8:0:0:0:0:0:1"}, {"2001:db8::1"}, {"xff:2001:0db8::0001"}}, reader: "xff:2001:db8:0::1"},
+		// a client behind proxies: the header is a list with the client first
+		{name: "forwarded-list", max: 1, clients: [][]string{{"xff:10.2.3.4, 172.16.0.1", "xff:10.2.3.4, 172.16.0.1"}, {"xff:1.2.3.4, 9.9.9.9", "xff:1.2.3.4"}, {"xff:1.2.3.4,8.8.8.8, 9.9.9.9"}}, reader: "xff:1.2.3.4, 7.7.7.7"},
 		// blocks that overlap: narrow before wide with the same base address, wide before narrow, IPv6, a host route
 		{name: "nested-blocks", blocks: "192.168.0.0/24,192.168.0.0/16,2001:db8::/64,2001:db8::/32,172.16.5.5/32", max: 1, clients: [][]string{{"192.168.7.7", "192.168.7.7"}, {"xff:2001:db8:1::5", "xff:2001:db8:1::5"}, {"172.16.5.5", "172.16.5.6", "172.16.5.6"}}, reader: "192.168.7.7"},
 		{name: "nested-blocks-wide-first", blocks: "10.0.0.0/8,10.1.0.0/16,10.1.1.0/24", max: 1, clients: [][]string{{"10.1.1.1", "10.1.1.1"}, {"10.200.0.1"}, {"11.0.0.1", "11.0.0.1"}}, reader: "11.0.0.1"},
